@@ -72,6 +72,8 @@ class Event:
     def __repr__(self):
         if self.kind == 'call':
             return 'call %s(%s)' % (self.name, ', '.join(a.canon() if a is not None else '?' for a in self.args))
+        if self.kind in ('iter-end', 'loop-begin', 'loop-end'):
+            return '%s L%s' % (self.kind, self.id)
         return '%s %s = %s' % (self.kind, self.lv, self.value.canon() if self.value is not None else '?')
 
 
@@ -411,7 +413,8 @@ class Interp:
         if k == 'DeclRefExpr':
             if node.get('cls') in ('local', 'param') and node['id'] in st.env and node['id'] not in self.addr_taken \
                     and not node.get('dims'):
-                return '(' + st.env[node['id']].canon() + ')'
+                cv = st.env[node['id']].canon()
+                return cv if cv == node['name'] else '(' + cv + ')'
             return node['name']
         if k == 'MemberExpr':
             base = self.lvalue_key(c[0], st) if c else 'this'
@@ -1020,6 +1023,11 @@ class Interp:
                         self.eval(inc, s)
                     except NotInClass:
                         pass
+                # snapshot of one symbolic iteration: written variable -> (value at iteration start, value at its end)
+                snap = {}
+                for vid, ref in w.items():
+                    snap[ref['name']] = (Rat.sym('%s@L%d' % (ref['name'], lid)), s.env.get(vid))
+                s.events.append(Event('iter-end', node=node, id=lid, args=snap, loop=s.loopdepth))
                 # further iterations: havoc again, then exit with the condition false
                 self.counter += 1
                 for vid, ref in w.items():
